@@ -72,7 +72,7 @@ func (fc *FuncCtx) execInstr(ins ssa.Instruction, st *State, reach string) {
 		ek := fc.elemComp(et)
 		r := fc.allocRef(st)
 		e0 := fc.get(st, ek)
-		fc.set(st, ek, "(store "+e0+" "+r+" ((as const (Array Int "+fc.S.SortOf(et)+")) "+fc.S.Zero(et)+"))")
+		fc.set(st, ek, "(store "+e0+" "+r+" "+fc.zeroArray(et)+")")
 		fc.atFrame(et, e0, fc.get(st, ek), func(b, ix string) string { return "(= " + b + " " + r + ")" })
 		fc.vals[x] = Val{T: fc.define("Slice", "(mk-slice "+r+" 0 "+ln+" "+cp+")", x.Name()), Ty: x.Type()}
 	case *ssa.MakeMap:
@@ -159,7 +159,7 @@ func (fc *FuncCtx) execAlloc(x *ssa.Alloc, st *State, reach string) {
 		ek := fc.elemComp(arr.Elem())
 		r := fc.allocRef(st)
 		e0 := fc.get(st, ek)
-		fc.set(st, ek, "(store "+e0+" "+r+" ((as const (Array Int "+fc.S.SortOf(arr.Elem())+")) "+fc.S.Zero(arr.Elem())+"))")
+		fc.set(st, ek, "(store "+e0+" "+r+" "+fc.zeroArray(arr.Elem())+")")
 		fc.atFrame(arr.Elem(), e0, fc.get(st, ek), func(b, ix string) string { return "(= " + b + " " + r + ")" })
 		fc.vals[x] = Val{T: r, Ty: x.Type()}
 		return
